@@ -343,6 +343,29 @@ func cmdCheck(args []string, writeLedger bool) {
 		}
 		sort.Slice(lg.Proved, func(i, j int) bool { return lg.Proved[i].Name < lg.Proved[j].Name })
 		sort.Strings(lg.Unproved)
+		// never demote silently: an obligation proved in the previous ledger that is now unproved or gone
+		// must be looked at (a contract or engine change broke it); refuse unless VERIF_LEDGER_FORCE=1
+		var old Ledger
+		if ob, err := os.ReadFile(ledgerPath); err == nil {
+			_ = json.Unmarshal(ob, &old)
+		}
+		nowProved := map[string]bool{}
+		for _, e := range lg.Proved {
+			nowProved[e.Name] = true
+		}
+		var demoted []string
+		for _, e := range old.Proved {
+			if !nowProved[e.Name] {
+				demoted = append(demoted, e.Name)
+			}
+		}
+		if len(demoted) > 0 {
+			fmt.Printf("DEMOTED (proved in the committed ledger, not proved now): %s\n", strings.Join(demoted, " "))
+			if os.Getenv("VERIF_LEDGER_FORCE") != "1" {
+				fmt.Println("ledger NOT rewritten (set VERIF_LEDGER_FORCE=1 after checking each of them)")
+				os.Exit(2)
+			}
+		}
 		_ = os.MkdirAll(filepath.Dir(ledgerPath), 0o755)
 		writeJSON(ledgerPath, lg)
 		fmt.Printf("ledger %s: %d obligations (%d generated, %d unproved)\n", prop, len(lg.Proved), len(all), len(lg.Unproved))
